@@ -2947,30 +2947,20 @@ def _maybe_correct_neg_dim(
 
 # Check if the new shape is a flatten / unflatten version of the current one
 def _check_is_flatten(new_shape, old_shape, return_flatten_dim=False):
-    if not new_shape:
-        if return_flatten_dim:
-            return False, (-1, -1)
-        return False
-    if new_shape.numel() != old_shape.numel():
-        if return_flatten_dim:
-            return False, (-1, -1)
-        return False
-    # a shape is a flatten version of another if all the first sizes and/or all the last sizes match
-    for i, (first_new, first_old) in enumerate(zip(new_shape, old_shape)):  # noqa: B007
-        if first_new != first_old:
-            break
-    # 'i' must be the result of the flatten op
-    for j, (last_new, last_old) in enumerate(  # noqa: B007
-        zip(reversed(new_shape), reversed(old_shape))
-    ):
-        if last_new != last_old:
-            break
-    # j is also the result of the flatten, so if j and i match this is the result of a flatten
-    if i == len(new_shape) - j - 1:
-        if return_flatten_dim:
-            j = len(old_shape) - j - 1
-            return True, (i, j)
-        return True
+    # new_shape is a flattened version of old_shape if it is old_shape with the
+    # consecutive dims i..j (inclusive) merged into a single dim
+    num_merged = len(old_shape) - len(new_shape)
+    if new_shape and num_merged >= 0:
+        for i in range(len(new_shape)):
+            j = i + num_merged
+            if (
+                tuple(new_shape[:i]) == tuple(old_shape[:i])
+                and tuple(new_shape[i + 1 :]) == tuple(old_shape[j + 1 :])
+                and new_shape[i] == math.prod(old_shape[i : j + 1])
+            ):
+                if return_flatten_dim:
+                    return True, (i, j)
+                return True
     if return_flatten_dim:
         return False, (-1, -1)
     return False
